@@ -80,6 +80,16 @@ func (p *Persister) Serialize() ([]byte, error) {
 
 // Deserialize decodes the state and cache from storage, and applies them to the persister.
 func (p *Persister) Deserialize(b []byte) error {
+	if p.Memory != nil {
+		// decoding merges into maps that are still reachable from the cache (also beyond the
+		// current length of the frame list): what was there before must not survive a load
+		frames := p.Memory.Cache[:cap(p.Memory.Cache)]
+		for i := range frames {
+			frames[i] = nil
+		}
+		p.Memory.Cache = p.Memory.Cache[:0]
+		p.Memory.Sizes = make(map[string]uint16)
+	}
 	err := cbor.Unmarshal(b, p)
 	return err
 }
